@@ -157,125 +157,13 @@ def rule_a(ctx, out):
     sites = check_sites(ctx, out)
     out.info["driver_sites"] = len(sites)
 
-    # --- the comparison returns a conjunction of all three components --------------
+    # --- the comparison looks at every part of both blocks: decided by evaluating it on stand-in blocks (C05.j) ---------------
+    from . import C05
+    C05.rule_j(ctx, out)
     f = ctx.func(f"{GASOL}.{COMPARE}")
-    assigns = single_assignments(f.node)
-
-    def origin(e, depth=0):
-        """Chase a name to the expression it was assigned (single assignment)."""
-        while isinstance(e, ast.Name) and e.id in assigns and len(assigns[e.id]) == 1 and depth < 6:
-            _, v, idx = assigns[e.id][0]
-            e = ("tuple", v, idx) if idx is not None else v
-            depth += 1
-            if isinstance(e, tuple):
-                return e
-        return e
-
-    rets = [n for n in own_nodes(f.node) if isinstance(n, ast.Return)]
-    if not rets:
-        raise AnalysisError(f"{COMPARE} has no return statement")
-    params = f.params
     vf = ctx.callee_in(f, "verification.sfs_verify")
-    cfg = ctx.cfg(f)
-    tests = [t for t in cfg.nodes if t.kind == "test"]
-
-    def path_facts(ret):
-        """(expression, truth) for every branch condition that holds on all paths to the return (guard clauses)"""
-        node = cfg.stmt_node(ret)
-        facts = []
-        for t in tests:
-            for lab, truth in (("T", True), ("F", False)):
-                if node is not None and cfg.edge_dominated_by_branch(node, t, lab):
-                    e = t.ast
-                    while isinstance(e, ast.UnaryOp) and isinstance(e.op, ast.Not):
-                        e, truth = e.operand, not truth
-                    facts.append((e, truth))
-        return facts
-    accepting = 0
-    for r in rets:
-        v = r.value
-        first = v.elts[0] if isinstance(v, ast.Tuple) and v.elts else v
-        if isinstance(first, ast.Constant) and first.value is False:
-            continue    # a rejecting return (e.g. in an exception handler) needs no justification
-        facts = path_facts(r)
-        if any(not truth and norm(e) == norm(first) for e, truth in facts):
-            continue    # `if not X: return X, reason` : the value is known to be falsy here
-        accepting += 1
-        conj = []
-
-        def flat(e):
-            if isinstance(e, ast.BoolOp) and isinstance(e.op, ast.And):
-                for x in e.values:
-                    flat(x)
-            else:
-                conj.append(e)
-        flat(origin(first) if not isinstance(origin(first), tuple) else first)
-        for e, truth in facts:
-            if truth:
-                flat(origin(e) if not isinstance(origin(e), tuple) else e)
-        has_verify = has_init = has_final = False
-        for c in conj:
-            o = origin(c)
-            if isinstance(o, tuple) and isinstance(o[1], ast.Call) and call_name(o[1]) == vf.name and o[2] == 0:
-                has_verify = _verify_args_ok(o[1], origin, params, ctx, f)
-            if isinstance(o, ast.Compare) and len(o.ops) == 1 and isinstance(o.ops[0], ast.Eq):
-                l, rr = origin(o.left), origin(o.comparators[0])
-                for meth, which in (("instructions_initial_bytecode", "init"), ("instructions_final_bytecode", "final")):
-                    if all(isinstance(x, ast.Call) and call_name(x) == meth for x in (l, rr)):
-                        recv = {x.func.value.id for x in (l, rr) if isinstance(x.func, ast.Attribute) and isinstance(x.func.value, ast.Name)}
-                        if recv == set(params[:2]):
-                            if which == "init":
-                                has_init = True
-                            else:
-                                has_final = True
-        for ok_, what in ((has_verify, "sfs-verification"), (has_init, "initial-instructions-equal"),
-                          (has_final, "final-instructions-equal")):
-            if ok_:
-                out.ok({"function": f.qual, "conjunct": what})
-            else:
-                out.bad(f"{COMPARE}:return-missing:{what}",
-                        f"the boolean returned by {COMPARE} does not include the conjunct `{what}`", where(f, r),
-                        {"return": short(r)})
-
-    if not accepting:
-        raise AnalysisError(f"{COMPARE} has no accepting return")
     # --- verify_block_from_list_of_sfs covers every key ---------------------------
     _verify_block_rule(ctx, vf, out)
-
-
-def _verify_args_ok(call, origin, params, ctx=None, f=None):
-    """verify(old_sfs, new_sfs): argument i derives from block parameter i alone (of the two blocks), through a call that computes
-    the specification of that block (compute_original_sfs_with_simplifications, directly or inside a helper)."""
-    if len(call.args) < 2:
-        return False
-    from ..core.flow import single_assignments
-    sa_ = single_assignments(f.node)
-    sfs_fn = ctx.func(f"{GASOL}.compute_original_sfs_with_simplifications")
-
-    def chain(e, depth=0):
-        """expressions the value of e is computed from (following single local assignments)"""
-        out_ = [e]
-        if depth < 6:
-            for x in ast.walk(e):
-                if isinstance(x, ast.Name) and x.id not in f.params:
-                    for (_, v, _idx) in sa_.get(x.id, []):
-                        out_ += chain(v, depth + 1)
-        return out_
-    for i, a in enumerate(call.args[:2]):
-        exprs = chain(a)
-        blocks = {x.id for e in exprs for x in ast.walk(e) if isinstance(x, ast.Name)} & set(params[:2])
-        if blocks != {params[i]}:
-            return False
-        computes = False
-        for e in exprs:
-            for c in ast.walk(e):
-                if isinstance(c, ast.Call):
-                    for t in ctx.r.resolve_call(f, c):
-                        if t.qual == sfs_fn.qual or sfs_fn.qual in ctx.r.reachable([t], by_name=False):
-                            computes = True
-        if not computes:
-            return False
-    return True
 
 
 def _verify_block_rule(ctx, vf, out):
@@ -450,7 +338,38 @@ def rule_d(ctx, out):
     C02.rule_e(ctx, out)
 
 
+def rule_e(ctx, out):
+    """No opcode with an effect is treated as a pure function.  Whatever is not a splitting or block-ending instruction becomes a term
+    of the specification: it is dropped when its result is unused, shared when it occurs twice, and moved freely.  That is sound for
+    operations that only read stack, memory, storage and the environment.  For every opcode of the front-end's vocabulary that the EVM
+    reference lists as externally visible (calls, creations, logs, copies, halting) or as position dependent (GAS, PC, MSIZE): it must
+    be in one of the sets the repository splits / ends blocks at, or be an opcode for which specification generation fails (the
+    block is then kept unchanged)."""
+    from . import roundtrip as rt
+    from ..specs.evm import EXTERNALLY_VISIBLE, POSITION_DEPENDENT
+    rows, info, own, _ = rt.table(ctx)
+    voc = set(rt.vocabulary(ctx))
+    n = 0
+    for op in sorted((EXTERNALLY_VISIBLE | POSITION_DEPENDENT) & set(rows)):
+        n += 1
+        row = rows[op]
+        if op not in voc:
+            out.ok({"opcode": op, "handled_as": "splitting / block-ending instruction"})
+        elif op in rt.NO_FUNCTOR or row.get("giv_raises") or row.get("error_line"):
+            out.ok({"opcode": op, "handled_as": "no term can be built: specification generation fails and the block is kept unchanged"})
+        elif op in EXTERNALLY_VISIBLE:
+            out.bad(f"effectful-opcode-treated-as-pure:{op}", f"{op} is externally visible (EVM reference) but is neither a splitting nor a block-ending instruction: "
+                    f"it becomes the term `{row.get('funct')}`, so `… {op} POP` is optimized away and two {op}s with equal operands are merged", where(ctx.p.module("global_params.constants")))
+        else:
+            out.bad(f"position-dependent-opcode-treated-as-pure:{op}", f"the value of {op} depends on what was executed before it in the block (EVM reference), but it "
+                    f"becomes the term `{row.get('funct')}` that can be moved, and accesses before it can be removed (`PUSH 40 MLOAD POP MSIZE` -> `MSIZE`)",
+                    where(ctx.p.module("global_params.constants")))
+    if n < 20:
+        raise AnalysisError(f"only {n} effectful / position-dependent opcodes of the reference are known to the front-end")
+
+
 RULES = [
+    ("C01.e", "no opcode with an effect is treated as a pure function", 20, rule_e),
     ("C01.d", "load/hash unification checks every intervening access", 2, rule_d),
     ("C01.a", "safety net dominates every emission of an optimized block", 8, rule_a),
     ("C01.b", "opcode -> operator -> opcode round trip", 55, rule_b),
